@@ -13,6 +13,7 @@ VERIF_KINDS = [
     ("possible division by zero", "overflow"),
     ("possible bit shift underflow/overflow", "overflow"),
     ("assertion failed", "assert"),
+    ("requires not satisfied", "assert"),      # the `requires` of an `assert ... by(...) requires ...` proof step
     ("invariant not satisfied", "invariant"),
     ("decreases not satisfied", "decreases"),
     ("loop invariant", "invariant"),
